@@ -49,7 +49,7 @@ def env_trace(tid, beh, cfg, rng, episodes=2, fault_prob=0.15):
         k = 0
         total = sum(len(j) for j in inst)
         done = 0
-        cut = total if (ep < episodes - 1 or rng.random() < 0.6) else rng.randint(0, total)
+        cut = total if rng.random() < 0.55 else rng.randint(0, total)      # resets also in the middle of an episode
         while done < cut:
             if rng.random() < fault_prob:
                 j = rng.randint(1, len(inst))
@@ -219,5 +219,6 @@ def replay_env(trace, pid):
         print("multi-environment episodes depend on the generator's random stream; re-run the check to reproduce")
         return {1: [(0, pid + ":not-replayable", "")]}
     new = esession.rerun_env_trace(1, trace)
+    new["owner"] = pid
     v, _ = tlcio.monitor("Trace_D.tla", "Trace_D.cfg", f"replay-{pid}", [new], workers=1)
     return v
